@@ -65,6 +65,10 @@ func (l *ledger) onOp(s *sim.Sim, op *sim.OpRec) {
 			// (a failing batch update that applied its leave half is the recorded C03 finding)
 			l.c.Failf("C01.refused-departure-took-chips", "%s was refused, yet %s and the %d chips in front of him are gone although nobody departed", op.String(), id, b.Bankroll)
 		}
+		if !still && op.Err == nil && !(inList(op.IDs, id) && (op.Kind == "leave" || op.Kind == "update")) {
+			// nobody asked for this player to leave: he and his chips were destroyed
+			l.c.Failf("C01.unnamed-player-gone", "%s succeeded and %s, whom it does not name as leaving, is gone with the %d chips in front of him", op.String(), id, b.Bankroll)
+		}
 		if !still {
 			// departed (accepted leave, or a partially applied failing batch): took b.Bankroll along
 			l.out += b.Bankroll
